@@ -391,6 +391,10 @@ fn spec_from_replay(case: &serde_json::Value) -> Option<(YSpec, Layout)> {
 }
 
 fn check_one(ctx: &Ctx, s: &YSpec, l: &Layout, text: &str, st: &mut Stats) -> Option<String> {
+    ctx.guard(&format!("building / querying the grammar of\n{}", text), || replay_case(s, l, text), None, || check_one_inner(ctx, s, l, text, st))
+}
+
+fn check_one_inner(ctx: &Ctx, s: &YSpec, l: &Layout, text: &str, st: &mut Stats) -> Option<String> {
     let g = &s.g;
     let case = || replay_case(s, l, text);
     let built = if l.header { YaccGrammar::<u32>::from_str(text) } else { YaccGrammar::<u32>::new_with_storaget(s.kind.yk(), text) };
